@@ -19,3 +19,4 @@ def build(run):
     N.wang_lemmas(run)
     BZ.brillouin_zone(run)
     DN.nac_factor_contract(run)
+    DN.gl_cartesian_q(run)
